@@ -131,14 +131,14 @@ pub fn gen_plan(seed: u64) -> Plan {
         .collect();
     let n_actions = r.range(8, 40) as usize;
     let fault_free = r.chance(1, 6);
-    let mut acts = vec![XAct::Observe { out: r.below(6) }, XAct::Stabilise];
+    let mut acts = vec![XAct::Observe { out: r.below(7) }, XAct::Stabilise];
     while acts.len() < n_actions {
         let a = match r.weighted(&[10, 5, 6, 12, 8, 5, 14, if fault_free { 0 } else { 3 }, if fault_free { 0 } else { 1 }, if fault_free { 0 } else { 2 }, if fault_free { 0 } else { 2 }]) {
             0 => XAct::SetSel { k: r.below(16) },
             1 => XAct::SetOuter { j: r.below(16) },
             2 => XAct::SetBsel { x: r.range(-3, 8) },
             3 => XAct::WriteChild { i: r.below(3), v: r.range(-3, 8) },
-            4 => XAct::Observe { out: r.below(6) },
+            4 => XAct::Observe { out: r.below(7) },
             5 => XAct::DropObs { obs: r.below(16) },
             6 => XAct::Stabilise,
             7 => XAct::Poke,
@@ -351,6 +351,10 @@ pub fn run_on_this_thread(plan: &Plan, keep_trace: bool) -> RunOutput {
             let sum_weak = sum_weak.clone();
             sel.watch().map2(&b_main, move |k: &usize, _b: &i64| {
                 sh.invocations.set(sh.invocations.get() + 1);
+                // once the sum has been invalidated its dependencies are gone with it
+                if sh.killed.get() {
+                    return 0i64;
+                }
                 let wanted: Vec<(usize, u64)> = cfg.configs[*k % cfg.configs.len()].iter().map(|i| (*i, if *i == 4 { sh.b_gen.get() } else { 0 })).collect();
                 // multiset difference
                 let mut keep: Vec<bool> = vec![false; sh.deps.borrow().len()];
@@ -399,6 +403,7 @@ pub fn run_on_this_thread(plan: &Plan, keep_trace: bool) -> RunOutput {
             })
         };
         sum.add_dependency(&lhs_change);
+        let controller_out = lhs_change.clone();
         let poke_node = {
             let sh = sh.clone();
             let sum_weak = sum_weak.clone();
@@ -449,6 +454,9 @@ pub fn run_on_this_thread(plan: &Plan, keep_trace: bool) -> RunOutput {
             // the child that calls make_stale, observable on its own: it then runs (and pokes
             // the sum) while the sum itself is not needed
             poke_out,
+            // the child that edits the sum's dependencies, observable on its own: it then edits
+            // them while the sum itself is not needed
+            controller_out,
         ];
         let mut observers: Vec<Option<(usize, Observer<i64>, bool)>> = vec![];
         let mut top_adds = 0u32;
@@ -561,7 +569,7 @@ pub fn run_on_this_thread(plan: &Plan, keep_trace: bool) -> RunOutput {
                                 (None, Ok(_)) => "invalidate-ignored",
                                 _ => "wrong-value",
                             };
-                            sh.bad(rule, format!("output {} ({}) returned {:?}, the reference computation gives {:?}", outi, ["dynamic sum", "join", "expert bind", "map over sum", "map2(sum, join)", "poking child"][*outi], got, exp));
+                            sh.bad(rule, format!("output {} ({}) returned {:?}, the reference computation gives {:?}", outi, ["dynamic sum", "join", "expert bind", "map over sum", "map2(sum, join)", "poking child", "controller"][*outi], got, exp));
                         }
                     }
                 }
